@@ -11,6 +11,7 @@
 -/
 import Driver.Proto
 import DecimalModel.DecOps
+import DecimalModel.AsmRoutines
 
 namespace Driver
 open Decimal Decimal.L0 Decimal.Gen
@@ -59,6 +60,44 @@ def kernVec (name : String) (s r : Nat) (x y : List Nat) : Option ((List Nat × 
   | "div10VWW" => some (div10VWW x s r, fun (z, c) => wf z && z.length == n && s != 0 && natOf z * s + c == r * B ^ n + natOf x && c < s)
   | _ => none
 
+/-- The same kernel executed by the Lean model of the REGENERATED assembly (tools/gen asm.go →
+    Gen/Asm.lean, run by AsmSem): compared with what the CPU returned, this validates the
+    translator's meaning of every mnemonic on every run. `none` = shape not executed here. -/
+def leanAsmVec (name shape : String) (s r : Nat) (x y : List Nat) : Option (Option (List Nat × Nat)) :=
+  open Decimal.Asm Decimal.Gen.Asm in
+  if shape == "sep" then
+    match name with
+    | "add10VV" => some (asm_add10VV x y)
+    | "sub10VV" => some (asm_sub10VV x y)
+    | "add10VW" => some (asm_add10VW x s)
+    | "sub10VW" => some (asm_sub10VW x s)
+    | "shl10VU" => some (asm_shl10VU x s)
+    | "shr10VU" => some (asm_shr10VU x s)
+    | "mulAdd10VWW" => some (asm_mulAdd10VWW x s r)
+    | "addMul10VVW" => some (asm_addMul10VVW y x s)
+    | "div10VWW" => some (asm_div10VWW x s r)
+    | _ => none
+  else if shape == "inplace" then
+    match name with
+    | "add10VV" => some (asm_add10VV_inplace x y)
+    | "sub10VV" => some (asm_sub10VV_inplace x y)
+    | "add10VW" => some (asm_inplace .add10VW_entry x [s])
+    | "sub10VW" => some (asm_inplace .sub10VW_entry x [s])
+    | "shl10VU" => some (asm_inplace .shl10VU_entry x [s])
+    | "shr10VU" => some (asm_inplace .shr10VU_entry x [s])
+    | "mulAdd10VWW" => some (asm_inplace .mulAdd10VWW_entry x [s, r])
+    | "div10VWW" => some (asm_inplace .div10VWW_entry x [s, r])
+    | _ => none
+  else none
+
+def leanAsmWW (name : String) (a b c : Nat) : Option (Option (Nat × Nat)) :=
+  open Decimal.Asm in
+  match name with
+  | "mul10WW" => some (asm_mul10WW a b)
+  | "div10WW" => some (asm_div10WW a b c)
+  | "div10W" => some (asm_div10W a b)
+  | _ => none
+
 def lenTags (n : Nat) : List String :=
   [s!"len%4={n % 4}"] ++ (if n ≥ 4 then ["unrolled"] else []) ++ (if n == 0 then ["empty"] else [])
 
@@ -75,7 +114,9 @@ def doKern (line : String) : String :=
           if ra != rp then s!"DIFF kern {name} assembly and portable Go differ: asm={ra} pure={rp}"
           else if ra != sp then s!"DIFF kern {name} implementation differs from the mathematical definition: got={ra} want={sp}"
           else if m != sp then s!"DIFF kern {name} regenerated Lean definition differs from the mathematical definition: gen={m} want={sp}"
-          else "ok ww," ++ name
+          else match leanAsmWW name a b c with
+            | some la => if la != some ra then s!"DIFF kern {name} Lean-executed translation of the assembly differs from the CPU: lean={la} cpu={ra}" else "ok ww,leanasm," ++ name
+            | none => "ok ww," ++ name
         | none => "DIFF proto unknown word kernel " ++ name)
       | _, _, _, _, _ => "DIFF proto ww fields"
     | "shared" :: "ok" :: k :: _ => "ok shared,goroutines=" ++ k
@@ -92,7 +133,13 @@ def doKern (line : String) : String :=
           if ra != rp then s!"DIFF kern {name} assembly and portable Go differ (shape {shape}): asm={listToString ra.1} {ra.2} pure={listToString rp.1} {rp.2}"
           else if !sp ra then s!"DIFF kern {name} implementation violates the mathematical definition (shape {shape}): got={listToString ra.1} {ra.2}"
           else if m != ra then s!"DIFF kern {name} L0 model differs from the implementation: model={listToString m.1} {m.2} got={listToString ra.1} {ra.2}"
-          else "ok vec," ++ name ++ ",shape=" ++ shape ++ "," ++ ",".intercalate (lenTags x.length)
+          else match leanAsmVec name shape s r x y with
+            | some la =>
+              (match la with
+              | some lr => if lr != ra then s!"DIFF kern {name} Lean-executed translation of the assembly differs from the CPU (shape {shape}): lean={listToString lr.1} {lr.2} cpu={listToString ra.1} {ra.2}"
+                           else "ok vec,leanasm," ++ name ++ ",shape=" ++ shape ++ "," ++ ",".intercalate (lenTags x.length)
+              | none => s!"DIFF kern {name} Lean-executed translation of the assembly trapped or ran out of fuel (shape {shape})")
+            | none => "ok vec," ++ name ++ ",shape=" ++ shape ++ "," ++ ",".intercalate (lenTags x.length)
         | none => "DIFF proto unknown vector kernel " ++ name)
       | _, _, _, _, _, _ => "DIFF proto vec fields"
     | _ => "DIFF proto K")
